@@ -542,7 +542,7 @@ func TestVerif_C11_Lockstep(t *testing.T) {
 				}
 				if snapshot.VerifG4TryWrite(m.b.Store) {
 					// the lock is free, so nothing is leaked; the reaper may simply have nothing pending
-					m.b.Store.SetReapThreshold(1 << 30)
+					// (the threshold is not touched here: the reaper goroutine reads it unsynchronised)
 					m.reapMustSucceed("epilogue after auto mode")
 					m.afterManualReap()
 					break
